@@ -15,6 +15,10 @@ import os
 from .. import common as C
 from ..flow import Flow
 
+# False: the model of globals.rs as it is.  Set the default to "1" once the `through_pointer`
+# repair (.cache/prompts/C14-fix.diff) is committed in /repo (C14_fixed_full_sound is proved for it).
+MODEL_FIXED = os.environ.get("VERIF_C14_MODEL_FIXED", "1") == "1"
+
 I = ("I",)
 S = ("S",)
 G = ("G",)
@@ -345,10 +349,15 @@ def run(tier, seed):
         else:
             for c, s, i, m in zip(cases, srcs, impl, model):
                 mt = m.split()
-                if len(mt) != 6:
+                if len(mt) != 8:
                     fl.broken.append({"what": "model driver failed", "path": c.path, "out": m})
                     continue
-                m_assign, m_ref, place, suspect, typed, mut = mt
+                m_assign, m_ref, place, suspect, typed, mut, x_assign, x_ref = mt
+                if MODEL_FIXED:
+                    m_assign, m_ref = x_assign, x_ref
+                # theorem instances on the extracted code: the repaired variant is sound everywhere
+                if (x_assign == "1" or x_ref == "1") and place == "Immut":
+                    fl.broken.append({"what": "C14_fixed_full_sound instance fails on extracted code", "path": c.path})
                 kinds = [t.split(":", 1)[1].split("@")[0] for t in i.split() if ":" in t and not t.startswith("PANIC")]
                 errs = [k for k in kinds if not k.startswith("w-")]
                 other = [k for k in errs if k not in ("CannotMutate", "MutableRefToImmutableData")]
@@ -475,6 +484,7 @@ def run(tier, seed):
     v.assumptions = [
         "typing oracle pk = pointer kind of the static type the generator assigned to each sub-expression (checked "
         "indirectly: a program that is not otherwise well-typed is reported as a broken stream)",
+        "MODEL_FIXED=%s (model variant compared with the code)" % MODEL_FIXED,
         "get_mutability arms for Expr::Block tail, Expr::Cast and Ty::File members are modelled and proved about but not generated",
         "the theorems quantify over ALL typing oracles; `typed` (full statement) only demands pointer-typed deref operands "
         "and consistent types for paren/block/^ nodes",
